@@ -531,6 +531,10 @@ class IRGenerator:
                     'Bad arguments to annotation type %s.' % quote(item.annotation_type),
                     item.lineno, item.path)
         else:
+            if item.annotation_type_ns == env.namespace_name:
+                raise InvalidSpec(
+                    'Namespace %s is not imported' % quote(item.annotation_type_ns),
+                    item.lineno, item.path)
             if item.annotation_type_ns is not None:
                 namespace.add_imported_namespace(
                     self.api.ensure_namespace(item.annotation_type_ns),
